@@ -1,4 +1,5 @@
 import Gtree.Lemmas.Validate
+import Gtree.Lemmas.MkdirCounts
 /-
   C09 — dry run touches nothing and predicts the real run (model of the repaired code).
 -/
@@ -48,5 +49,42 @@ theorem C09_reject_iff (f : Fmt) (exts : List Bytes) (target : Bytes) (roots : L
     cases hm : mkdirRoots fs target exts (roots.map (growRoot f)) with
     | mk fs' e =>
       cases e <;> simp
+
+/-- the dry-run counts of a root are what a real Mkdir (same extensions) creates: there are exactly that many
+    pairwise different node paths flagged file / directory, none of them existed before, and after the
+    real run each exists as an empty regular file / as a directory. (Forests of good names with distinct
+    sibling names, hypotheses of `C06_exact`.) -/
+theorem C09_counts_are_created (f : Fmt) (exts : List Bytes) (ts : List Bytes) (roots : List T) (fs : FS)
+    (hts : GoodList ts) (hg : AllGoodL roots) (hd : DistinctL roots) (hc : fs.Closed)
+    (hnf : ∀ i < ts.length, notFile fs (key (ts.take (i + 1))))
+    (hnone : anyRootExists fs (key ts) (roots.map (growRoot f)) = false) :
+    ((pathsOf exts ts roots).map (fun e => key e.1)).Nodup ∧
+    ∀ t ∈ roots,
+      countFiles exts (growRoot f t) = ((pathsOf exts ts [t]).filter (fun e => e.2)).length ∧
+      countDirs exts (growRoot f t) = ((pathsOf exts ts [t]).filter (fun e => !e.2)).length ∧
+      ∀ e ∈ pathsOf exts ts [t], fs.lookup (key e.1) = none ∧
+        (mkdirRoots fs (key ts) exts (roots.map (growRoot f))).1.lookup (key e.1)
+          = some (if e.2 then Kind.file 0 else Kind.dir) := by
+  obtain ⟨_, hex⟩ := mkdirRoots_exact f exts ts roots fs hts hg hd hc hnf hnone
+  have habs := nodes_absent f exts ts roots fs hts hg hc hnone
+  refine ⟨pathsOf_nodup exts roots ts hts hg hd, ?_⟩
+  intro t ht
+  have hgt : AllGoodT t := by
+    have : ∀ (ks : List T), AllGoodL ks → ∀ t ∈ ks, AllGoodT t := by
+      intro ks
+      induction ks with
+      | nil => intro _ t ht; simp at ht
+      | cons x rest ih =>
+        intro hgl t ht
+        rw [AllGoodL] at hgl
+        rcases List.mem_cons.mp ht with rfl | ht
+        · exact hgl.1
+        · exact ih hgl.2 t ht
+    exact this roots hg t ht
+  obtain ⟨hcf, hcd⟩ := counts_growRoot f exts ts hts t hgt
+  refine ⟨hcf, hcd, ?_⟩
+  intro e he
+  have hin : e ∈ pathsOf exts ts roots := (pathsOf_mem_split exts ts roots e).mpr ⟨t, ht, he⟩
+  exact ⟨habs e hin, by simpa [kindOfFlag] using hex.nodes e hin⟩
 
 end Gtree
